@@ -107,6 +107,26 @@ CLAIMED = {
    design="5/C16"),
 }
 
+# additions of round 4 (appended to the texts above)
+ROUND4 = {
+ "C02": (" Round 4: stop/continue slice (a foreground subshell stops itself and is continued from outside 1-11 scheduler steps later; events and $? must be those of the script without the stop).", None),
+ "C05": (" Round 4: every real-system sample also compares /proc/self/fd before and after its expansions.", None),
+ "C08": (" Round 4: shared-description slice (parent and asynchronous subshells overlap on one pipe end beyond its capacity under FIFO + 39/399 random schedules per shape; all facets and the blocking mode of every descriptor before == after); stop/continue slice.", None),
+ "C10": (" Round 4: stock-shell slice - the unmodified yash_cli::main binary (harness/yash3w) on the real system, 17 abort kinds x 7 contexts x {script file, -c, standard input}, observed through /bin/echo: nothing after the abort point, EXIT trap exactly once with the failing status = exit status; built-in output-error slice (12 printing built-ins x closed stdout / broken pipe x 5 contexts x plain/`command`).", "vsh-virtual + stock-real"),
+ "C11": (" Part F (round 4): the kernel as monitor - /proc/self/status of a program started by the stock shell (yash3w, real system) after 10 trap set-ups x 6 warm-ups x 15 ways of starting it (exec, plain, subshells, asynchronous lists, pipelines, substitutions, functions, eval) x {non-interactive, -m, -i}, a third of the matrix per quick run chosen by seed, all of it in thorough: nothing blocked, ignored = inherited + trap '' (+ INT/QUIT for asynchronous lists without job control); an interactive shell survives TERM/QUIT/INT after a failed exec.", "lib-inproc + vsh-virtual + stock-real"),
+ "C13": (" Round 4: shared-pipe slice (2-3 writers / 2 readers on one pipe end with payloads beyond its capacity, FIFO + 59/1499 random schedules per shape: terminates, all reaped, every byte counted); exit-status sweep (final statuses 0-3, 124-130, 254-258, 383-524, 640, 1000 x 5 kinds of child); stop/continue slice.", None),
+ "C14": (" Real-system slice (round 4): 54 / 900 pipelines through the harness shell on the real kernel with payloads around 4096 and 65536 bytes, mixing built-ins and external utilities that share pipe ends (incl. a built-in `read` followed by /bin/cat on the same pipe, substitution + here-document): length and hash at the consumer, blocking mode of descriptors 0-9 before == after; a run idle for 60 s is reported as blocked.", "vsh-virtual + vsh-real"),
+ "C16": (" Round 4: attributes-from-functions slice - readonly/export (with/without value, values containing `=`, after typeset) in 5 function shapes: value, export flag and writability inside the function and after the return.", None),
+ "C17": (" Round 4: the `do` position of a for loop in the model (not a command position); executed-commands slice - 12 alias tables with multi-line values run by the whole shell from a file, a pipe by lines and by bytes, -c, and -i: the probes equal those of the hand-substituted script.", "lib-inproc + vsh-virtual"),
+ "C18": (" Round 4: `set -m`/`set +m` and asynchronous readers (6 forms, inside and outside subshells) among the items; stop/continue slice with a stopped reader of the next script line.", None),
+ "C19": (" Round 4: self-sent INT/QUIT after asynchronous commands; scripts that reach for the shell-reserved descriptors 10/11 while a redirection is in effect.", None),
+ "C20": (" Round 4: lone `-` and `+` operands for export/readonly/typeset/unset/alias/type; every ulimit resource set through its short option and queried through every spelling.", None),
+}
+for k, (t, eng) in ROUND4.items():
+    CLAIMED[k]["text"] += t
+    if eng:
+        CLAIMED[k]["engine"] = eng
+
 PENDING_REASON = "monitor not implemented yet (work in progress; see DESIGN.md section 5)"
 
 def main():
@@ -142,6 +162,7 @@ def main():
        {"name": "lib-inproc", "path": "harness/vcheck", "kind_free_text": "monitors driving the public API of a /repo crate in-process, lock-step with a reference model or invariant checker", "serves_properties": [i for i in ids if i in CLAIMED and "lib-inproc" in CLAIMED[i]["engine"]]},
        {"name": "vsh-virtual", "path": "harness/vcheck", "kind_free_text": "the complete shell (yash-cli start-up, yash-semantics, yash-builtin) run in-process on VirtualSystem under our own scheduler (FIFO / random / DFS schedules, preemption at system calls through the verif-hooks feature), observed through probe built-ins and kernel-state snapshots", "serves_properties": [i for i in ids if i in CLAIMED and "vsh-virtual" in CLAIMED[i]["engine"]]},
        {"name": "vsh-real", "path": "harness/vcheck", "kind_free_text": "the same harness shell on RealSystem in a scratch directory (subprocess)", "serves_properties": [i for i in ids if i in CLAIMED and "vsh-real" in CLAIMED[i]["engine"]]},
+       {"name": "stock-real", "path": "harness/yash3w", "kind_free_text": "the unmodified shell entry point yash_cli::main built as harness/yash3w, run as a subprocess on the real system and observed from outside (stdout, exit status, /proc)", "serves_properties": [i for i in ids if i in CLAIMED and "stock-real" in CLAIMED[i]["engine"]]},
        {"name": "execmon", "path": "harness/execmon", "kind_free_text": "poll-log monitor for yash-executor against a FIFO reference queue; also run under Miri", "serves_properties": [i for i in ids if i in CLAIMED and "execmon" in CLAIMED[i]["engine"]]},
      ],
      "checks": checks,
